@@ -1697,7 +1697,7 @@ Section PrintGrammar.
   Qed.
 End PrintGrammar.
 
-(* ================================================================ jbl_as_json writes what jbn_as_json writes (NUL-free trees, indent 1) *)
+(* ================================================================ jbl_as_json writes what jbn_as_json writes (NUL-free trees; every flag set since d42c39c) *)
 Lemma cstr0_id : forall s, ~ In 0 s -> cstr0 s = s.
 Proof.
   induction s as [|c s IH]; intro H; [reflexivity|]. cbn [cstr0].
@@ -1708,30 +1708,30 @@ Section JblPrint.
   Variable fo : Z -> list Z.
   Variable pf : Z.
 
-  Lemma print_jbl_eq : forall v lvl, nulfree v -> indent pf = 1 -> print_jbl fo pf lvl v = print_node fo pf lvl v.
+  Lemma print_jbl_eq : forall v lvl, nulfree v -> print_jbl fo pf lvl v = print_node fo pf lvl v.
   Proof.
-    intro v. induction v as [|b|n|b|s|l IHl|l IHl] using jval_ind2; intros lvl Hnf Hind; try reflexivity.
+    intro v. induction v as [|b|n|b|s|l IHl|l IHl] using jval_ind2; intros lvl Hnf; try reflexivity.
     - cbn [print_jbl print_node nulfree] in *. rewrite cstr0_id by exact Hnf. reflexivity.
-    - cbn [print_jbl print_node]. cbn [nulfree] in Hnf. unfold pretty. rewrite Hind, Z.mul_1_r.
+    - cbn [print_jbl print_node]. cbn [nulfree] in Hnf. unfold pretty.
       match goal with |- match ?g1 l with _ => _ end = match ?g2 l with _ => _ end =>
         assert (Hg : g1 l = g2 l) end.
-      { clear - IHl Hnf Hind. induction l as [|x r IHr]; [reflexivity|].
+      { clear - IHl Hnf. induction l as [|x r IHr]; [reflexivity|].
         inversion IHl as [|? ? Hx Hr]; subst. cbn [fold_right] in Hnf. destruct Hnf as [Hnx Hnr].
-        cbn beta iota. rewrite (Hx (lvl + 1) Hnx Hind). rewrite (IHr Hr Hnr). reflexivity. }
+        cbn beta iota. rewrite (Hx (lvl + 1) Hnx). rewrite (IHr Hr Hnr). reflexivity. }
       rewrite Hg. reflexivity.
-    - cbn [print_jbl print_node]. cbn [nulfree] in Hnf. unfold pretty. rewrite Hind, Z.mul_1_r.
+    - cbn [print_jbl print_node]. cbn [nulfree] in Hnf. unfold pretty.
       match goal with |- match ?g1 l with _ => _ end = match ?g2 l with _ => _ end =>
         assert (Hg : g1 l = g2 l) end.
-      { clear - IHl Hnf Hind. induction l as [|[k x] r IHr]; [reflexivity|].
+      { clear - IHl Hnf. induction l as [|[k x] r IHr]; [reflexivity|].
         inversion IHl as [|? ? Hx Hr]; subst. cbn [snd] in Hx. cbn [fold_right] in Hnf. destruct Hnf as [[Hnk Hnx] Hnr].
-        cbn beta iota. rewrite (cstr0_id k Hnk). rewrite (Hx (lvl + 1) Hnx Hind). rewrite (IHr Hr Hnr). reflexivity. }
+        cbn beta iota. rewrite (cstr0_id k Hnk). rewrite (Hx (lvl + 1) Hnx). rewrite (IHr Hr Hnr). reflexivity. }
       rewrite Hg. reflexivity.
   Qed.
 
-  Theorem jbl_print_parse : forall ora v t, wf v -> nulfree v -> indent pf = 1 -> depth v <= JBL_MAX_NESTING_LEVEL ->
+  Theorem jbl_print_parse : forall ora v t, wf v -> nulfree v -> depth v <= JBL_MAX_NESTING_LEVEL ->
     jbl_as_json fo pf v = Ok t -> from_json ora t = Ok (Some v).
   Proof.
-    intros ora v t Hwf Hnf Hind Hd Hp. unfold jbl_as_json in Hp. rewrite print_jbl_eq in Hp by assumption.
+    intros ora v t Hwf Hnf Hd Hp. unfold jbl_as_json in Hp. rewrite print_jbl_eq in Hp by assumption.
     eapply print_parse; eauto.
   Qed.
 End JblPrint.
